@@ -14,6 +14,42 @@ CHECKS = {
              "(mints what the abstract credential shape says), a fake password backend. Reading: 'password' listed "
              "= any currently valid credential qualifies (DESIGN 3.7).",
         ref="DESIGN.md 4 C01"),
+    "C02": dict(
+        module="KMCertPolicy",
+        technique="TLA+ issuing model (TLC) + TLC-enumerated rows executed through the real login and certificate "
+                  "handlers + TLC trace monitor over decoded certificates",
+        text="KMCertPolicy states what an issued certificate may contain (sole principal / CN = normalised authenticated "
+             "user, certified key = submitted key, end-entity user certificate, verifies under the CA material served by "
+             "/public/x509ca and /public/sshca, extensions = the five standard ones plus the configured templates with the "
+             "user substituted; other target => refused). TLC checks the clauses on the model and enumerates name class x "
+             "key type x certificate type x deployment variant x target; each row logs in through the real login handler, "
+             "requests a certificate, and the decoded certificate is validated by the TLC monitor.",
+        note="Trusted: Go x509/ssh parsers for decoding, real signature verification in the projection; names limited "
+             "to the classes listed in the spec (NameClasses).",
+        ref="DESIGN.md 4 C02"),
+    "C03": dict(
+        module="KMCertPolicy",
+        technique="TLA+ lifetime model (integer seconds, TLC) + TLC-enumerated duration/age/path rows on the real "
+                  "handlers + TLC trace monitor on NotBefore/NotAfter",
+        text="The lifetime guards (no future start, never unbounded/wrapped, NotAfter <= min(requested, 24h, auth+24h) "
+             "for user certificates, 45d automation, 24h cloud-role) are checked by TLC on the model and evaluated by the "
+             "TLC monitor on the validity window of every certificate the real issuing paths return for 25 duration "
+             "texts (negative, zero, sub-second, > 24h, +-2^63 ns, malformed) x 9 credential kinds/ages x all paths.",
+        note="One second of slack per bound (epoch granularity); times relative to the request instant, clamped to "
+             "+-2e9 s for TLC's 32-bit integers with a separate 'unbounded' flag for wrap-around.",
+        ref="DESIGN.md 4 C03"),
+    "C10": dict(
+        module="KMCertPolicy",
+        technique="TLA+ key-strength predicate (TLC) + TLC-enumerated key classes x six issuing paths + seeded "
+                  "byte-level mutations, all executed on the real handlers + TLC trace monitor (incl. panic guard)",
+        text="Strong(k) is defined in the specification over logged key facts (algorithm, modulus/curve bits, exponent, "
+             "well-formedness); the monitor demands issued => Strong, not Strong => 4xx, and no panic, on every event. "
+             "TLC enumerates 29 key classes (RSA 512-4096 incl. 2040/2047 and small exponents, P-224..521, Ed25519, DSA, "
+             "X25519, ten malformed encodings) x ssh/x509/kubernetes/automation/refresh/cloud-role; 2k (quick) / 60k "
+             "(thorough) seeded mutations of valid encodings are classified by the standard parsers and run as well.",
+        note="Byte-level robustness is sampled, not coverage-guided fuzzing (outside this technique family; said so in "
+             "DESIGN 5). Fake STS for the cloud-role path.",
+        ref="DESIGN.md 4 C10"),
 }
 PENDING_REASON = "check not built yet in this session (specification module planned in DESIGN.md section 4); not claimed until its check runs clean on the unchanged tree"
 ALL = ["C%02d" % i for i in range(1, 21)]
